@@ -4,8 +4,12 @@
 (* IOEnv.IN names an ndjson file; each line is one recorded session over   *)
 (* several roots at once (COMPONENTS.dirs / STATICFILES_DIRS entries and   *)
 (* app directories), `roots` giving kind, prefix and the places where the  *)
-(* configuration mentions each (src), `cfg` whether COMPONENTS.dirs and    *)
-(* app_dirs are given (Autodiscover!Searched); directories that exist but  *)
+(* configuration mentions each (src: list, form and SPELLING of the path - *)
+(* trailing slash, "." / ".." segments, through a symbolic link; several   *)
+(* mentions = listed several times), `cfg` whether COMPONENTS.dirs and     *)
+(* app_dirs are given, the app_dirs entries as relative paths (segments +  *)
+(* spelling) and how BASE_DIR is spelled (Autodiscover!Searched);          *)
+(* directories that exist but                                              *)
 (* are not searched are roots too, their files must not be returned:       *)
 (*   mk / rm   an entry [k, kind, parts] was created / removed on disk     *)
 (*   scan      got = entries returned by get_component_files(sfx), each    *)
@@ -42,21 +46,23 @@ Step == /\ tid <= Len(Traces) /\ phase = "step" /\ l <= Len(Events)
 
 Dev(keys) == {"dev:" \o k : k \in keys}
 KP(rows) == {<<r.k, r.parts>> : r \in rows}
-\* observed rows agree with a set of specification rows: same (root, path) set, each once, and the
-\* dotted path wherever the specification determines it
+Count(got, r) == Cardinality({i \in DOMAIN got : got[i].k = r.k /\ got[i].parts = r.parts})
+\* observed rows agree with a set of specification rows: same (root, path) set, each as often as the row says
+\* (the specification: once), and an admitted dotted path wherever the specification determines it
 Agrees(got, rows) ==
   LET g == {got[i] : i \in DOMAIN got} IN
   /\ KP(g) = KP(rows)
-  /\ \A x \in g : \A r \in rows : (x.k = r.k /\ x.parts = r.parts /\ r.cmpdot) => x.dot = r.dot
+  /\ \A r \in rows : Count(got, r) = r.n
+  /\ \A x \in g : \A r \in rows : (x.k = r.k /\ x.parts = r.parts /\ r.cmpdot) => x.dot \in r.dots
 
 ScanFailing(e) ==
   LET g == {e.got[i] : i \in DOMAIN e.got}
       exp == Expected(TCfg, Roots, trees, e.sfx)
-      dev == DevExpected(TCfg, Roots, trees, e.sfx)
+      hit == {a \in DevAlternatives(TCfg, Roots, trees, e.sfx) : Agrees(e.got, a.rows)}
       dup == Cardinality(KP(g)) # Len(e.got) IN
-  IF ~dup /\ Agrees(e.got, exp) THEN {}
-  ELSE IF ~dup /\ Agrees(e.got, dev) /\ DevKeysFor(TCfg, Roots, trees, e.sfx) # {}
-       THEN Dev(DevKeysFor(TCfg, Roots, trees, e.sfx))
+  IF Agrees(e.got, exp) THEN {}
+  ELSE IF hit # {}
+       THEN Dev((CHOOSE a \in hit : \A b \in hit : Cardinality(a.keys) <= Cardinality(b.keys)).keys)
        ELSE (IF dup THEN {"returned_twice"} ELSE {})
             \* a file of a directory the configuration does not make a component directory
             \cup (IF \E x \in g : x.k \in DOMAIN Roots /\ x.k \notin Active(TCfg, Roots)
@@ -64,19 +70,23 @@ ScanFailing(e) ==
             \cup (IF \E k \in Active(TCfg, Roots) : \E r \in exp : r.k = k /\ ~\E x \in g : x.k = k
                   THEN {"searched_directory_missing"} ELSE {})
             \cup (IF KP(g) # KP(exp) THEN {"selection"} ELSE {})
-            \cup (IF KP(g) = KP(exp) /\ ~Agrees(e.got, exp) THEN {"dot_path"} ELSE {})
+            \cup (IF KP(g) = KP(exp) /\ ~dup /\ ~Agrees(e.got, exp) THEN {"dot_path"} ELSE {})
 
 LoadFailing(e) ==
   LET x == File(e.parts) IN
   IF e.k \in Active(TCfg, Roots) /\ x \in trees[e.k] /\ Selected(x, ".py") /\ Loadable(trees[e.k], x)
-  THEN (IF e.dot = DotPath(Roots[e.k], x) THEN {} ELSE {"dot_path"})
+  THEN (IF e.dot \in DotPaths(Roots[e.k], x) THEN {} ELSE {"dot_path"})
        \cup (IF e.res = "same" THEN {} ELSE {"import_loads_other_or_fails"})
   ELSE {}
 
-AutoOK == \A k \in Active(TCfg, Roots) :
+\* autodiscover() is demanded where every selected file is loadable, one dotted path is determined for each
+\* (no directory listed through a link) and no named deviation is triggered
+AutoOK == /\ DevsFor(TCfg, Roots, trees, ".py") = {}
+          /\ \A k \in Active(TCfg, Roots) :
             /\ \A x \in trees[k] : Selected(x, ".py") => Loadable(trees[k], x)
             /\ ~Roots[k].globmeta
-            /\ ~\E x \in AllEntries(trees[k]) : x.kind = "dir" /\ DevDirSelected(x, ".py")
+            /\ ~AliasListed(Roots[k])
+            /\ AppMult(TCfg, Roots[k]) = 1
 AutoFailing(e) ==
   LET act == Active(TCfg, Roots)
       want == UNION {{DotPath(Roots[k], x) : x \in {y \in trees[k] : Selected(y, ".py")}} : k \in act}
